@@ -26,6 +26,10 @@ PRELUDE = r"""
 #define NUNAVUT_ASSERT(x) do { if (!(x)) { std::printf("A ASSERT %s line %d\n", #x, __LINE__); std::fflush(stdout); std::abort(); } } while (0)
 #endif
 @INCLUDES@
+template <class...> struct vf_voider { using type = void; };
+template <class T, class = void> struct vf_has_allocator_type : std::false_type {};
+template <class T> struct vf_has_allocator_type<T, typename vf_voider<typename T::allocator_type>::type> : std::true_type {};
+@RESOURCE@
 
 struct In { std::vector<std::uint64_t> w; std::size_t pos = 0;
   std::uint64_t next() { if (pos >= w.size()) { std::printf("H stream underrun\n"); std::fflush(stdout); std::exit(3); } return w[pos++]; } };
@@ -106,9 +110,18 @@ def ident(t) -> str:
 
 
 class CppEmitter:
-    def __init__(self, ctypes: typing.List[pydsdl.CompositeType], tops=None):
+    def __init__(self, ctypes: typing.List[pydsdl.CompositeType], tops=None, alloc: bool = False, skip: typing.Optional[typing.Set[int]] = None):
+        """
+        alloc: the flavour's allocator is not default constructible -- every object is built from an allocator on the
+        harness' counting memory resource.  skip: indices of codec types that are left out of this harness.
+        """
         self.ctypes = ctypes
         self.tops = tops
+        self.alloc = alloc
+        self.skip = skip or set()
+
+    def new_expr(self, n: str) -> str:
+        return f"new {n}({n}::allocator_type(&vf_resource))" if self.alloc else f"new {n}()"
 
     def type_functions(self, ct) -> str:
         t = inner(ct)
@@ -131,31 +144,33 @@ class CppEmitter:
         return "\n".join(L + D)
 
     def emit(self, include_paths: typing.List[str], extra_containers: str = "") -> str:
-        names = [cpp_type_name(t) for t in self.ctypes]
+        names = [cpp_type_name(t) for i, t in enumerate(self.ctypes) if i not in self.skip]
         fwd = "\n".join(f"inline void load(In& in, {n}& o); inline void dump(Out& out, const {n}& o);" for n in names)
-        out = [PRELUDE.replace("@INCLUDES@", "\n".join(f'#include "{p}"' for p in include_paths)).replace("@FORWARDS@", fwd).replace("@EXTRA@", extra_containers)]
-        for ct in self.ctypes:
+        out = [PRELUDE.replace("@INCLUDES@", "\n".join(f'#include "{p}"' for p in include_paths)).replace("@FORWARDS@", fwd).replace("@EXTRA@", extra_containers)
+               .replace("@RESOURCE@", "static cetl::pf17::pmr::counting_resource vf_resource;" if self.alloc else "")]
+        live = [(k, ct) for k, ct in enumerate(self.ctypes) if k not in self.skip]
+        for _, ct in live:
             out.append(self.type_functions(ct))
-        for ct in self.ctypes:
+        for _, ct in live:
             out.append(f"static std::unique_ptr<{cpp_type_name(ct)}> keep_{ident(ct)};")
-        out.append("static void keep_reset() { " + " ".join(f"keep_{ident(ct)}.reset();" for ct in self.ctypes) + " }")
+        out.append("static void keep_reset() { " + " ".join(f"keep_{ident(ct)}.reset();" for _, ct in live) + " }")
         # S
         out.append("static void do_S(int ti, int prefill, std::size_t bufsize, const char* words_hex) {\n  In in; hex_words(words_hex, in);\n  std::uint8_t* buf = static_cast<std::uint8_t*>(std::malloc(bufsize)); std::memset(buf, prefill, bufsize); int rc = 99; std::size_t size = 0;\n  switch (ti) {")
-        for k, ct in enumerate(self.ctypes):
+        for k, ct in live:
             n = cpp_type_name(ct)
             out.append(
-                f"  case {k}: {{ std::unique_ptr<{n}> obj(new {n}()); load(in, *obj); auto r = serialize(*obj, nunavut::support::bitspan(buf, bufsize));"
+                f"  case {k}: {{ std::unique_ptr<{n}> obj({self.new_expr(n)}); load(in, *obj); auto r = serialize(*obj, nunavut::support::bitspan(buf, bufsize));"
                 f" if (r) {{ rc = 0; size = r.value(); }} else {{ rc = -static_cast<int>(r.error()); }} break; }}"
             )
         out.append('  default: break; }\n  if (rc == 0 && size > bufsize) { std::printf("S %d %zu OVERSIZE", rc, size); } else { std::printf("S %d %zu ", rc, rc == 0 ? size : 0); print_hex(buf, rc == 0 ? size : 0); }\n  std::printf("\\n"); std::free(buf);\n}')
         # D
         out.append("static void do_D(int ti, char mode, const char* prior_hex, const char* bytes_hex) {\n  std::size_t nb; std::uint8_t* b = hex_bytes(bytes_hex, &nb); In in; hex_words(prior_hex, in); Out o; int rc = 99; std::size_t size = 0;\n  switch (ti) {")
-        for k, ct in enumerate(self.ctypes):
+        for k, ct in live:
             n = cpp_type_name(ct)
             i = ident(ct)
             out.append(
-                f"  case {k}: {{ std::unique_ptr<{n}> fresh; {n}* obj; if (mode == 'K') {{ if (!keep_{i}) keep_{i}.reset(new {n}()); obj = keep_{i}.get(); }}"
-                f" else {{ fresh.reset(new {n}()); obj = fresh.get(); if (mode == 'V') load(in, *obj); }}"
+                f"  case {k}: {{ std::unique_ptr<{n}> fresh; {n}* obj; if (mode == 'K') {{ if (!keep_{i}) keep_{i}.reset({self.new_expr(n)}); obj = keep_{i}.get(); }}"
+                f" else {{ fresh.reset({self.new_expr(n)}); obj = fresh.get(); if (mode == 'V') load(in, *obj); }}"
                 f" auto r = deserialize(*obj, nunavut::support::const_bitspan(b, nb)); if (r) {{ rc = 0; size = r.value(); dump(o, *obj); }} else {{ rc = -static_cast<int>(r.error()); }} break; }}"
             )
         out.append('  default: break; }\n  std::printf("D %d %zu ", rc, rc == 0 ? size : 0); print_words(o); std::printf("\\n"); std::free(b);\n}')
@@ -171,6 +186,8 @@ class CppEmitter:
             "static void do_M(int ti) {\n  switch (ti) {",
         ]
         for k, ct in enumerate(self.ctypes):
+            if k in self.skip:
+                continue
             t = inner(ct)
             n = cpp_type_name(t)
             L.append(f"  case {k}: {{")
